@@ -108,6 +108,35 @@ SCRIPTS = {
     "EvalIfConditionFailed": ("error in if condition in a call", "fn f() {\n    if 1 + \"a\" {\n    }\n}\nf()\n", _traced),
     "EvalPropValueFailed": ("error in object literal value in a call", "fn f() {\n    return {\"a\": 1 + \"a\"}\n}\nf()\n", _traced),
     "EvalRangeStartFailed": ("error in range start", "fn f() {\n    return (1 + \"a\") .. 3\n}\nf()\n", _traced),
+    "EvalElseStatementsFailed": ("error inside an else block in a call", "fn f() {\n    if false {\n    } else {\n        x := 1 + \"a\"\n    }\n}\nf()\n", _traced),
+    "EvalIfStatementsFailed": ("error inside an if block in a call", "fn f() {\n    if true {\n        x := 1 + \"a\"\n    }\n}\nf()\n", _traced),
+    "EvalWhileStatementsFailed": ("error inside a while body in a call", "fn f() {\n    while true {\n        x := 1 + \"a\"\n    }\n}\nf()\n", _traced),
+    "EvalForStatementsFailed": ("error inside a for body in a call", "fn f() {\n    for p in [1] {\n        x := 1 + \"a\"\n    }\n}\nf()\n", _traced),
+    "ConvertForIterToPairsFailed": ("for over a non-iterable in a call", "fn f() {\n    for p in 1 {\n    }\n}\nf()\n", _traced),
+    "EvalDeclarationRhsFailed": ("error in a declaration's right-hand side in a call", "fn f() {\n    x := 1 + \"a\"\n}\nf()\n", _traced),
+    "EvalAssignmentRhsFailed": ("error in an assignment's right-hand side in a call", "fn f() {\n    x := 1\n    x = 1 + \"a\"\n}\nf()\n", _traced),
+    "OpAssignmentBindFailed": ("error in an op-assignment in a call", "fn f() {\n    x := 1\n    x += \"a\"\n}\nf()\n", _traced),
+    "DeclarationBindFailed": ("declaring a name twice in a call", "fn f() {\n    x := 1\n    x := 2\n}\nf()\n", _traced),
+    "AssignmentBindFailed": ("assigning an undeclared name in a call", "fn f() {\n    zz = 2\n}\nf()\n", _traced),
+    "EvalBinOpLhsFailed": ("error in a left operand in a call", "fn f() {\n    return (1 + \"a\") + 1\n}\nf()\n", _traced),
+    "EvalBinOpRhsFailed": ("error in a right operand in a call", "fn f() {\n    return 1 + (1 + \"a\")\n}\nf()\n", _traced),
+    "EvalListItemFailed": ("error in a list item in a call", "fn f() {\n    return [1 + \"a\"]\n}\nf()\n", _traced),
+    "EvalCallArgsFailed": ("error in a call argument in a call", "fn f() {\n    return f(1 + \"a\")\n}\nf()\n", _traced),
+    "EvalCallFuncFailed": ("error in the callee expression in a call", "fn f() {\n    return (1 + \"a\")()\n}\nf()\n", _traced),
+    "EvalSourceExprFailed": ("error in an indexed expression in a call", "fn f() {\n    return (1 + \"a\")[0]\n}\nf()\n", _traced),
+    "EvalIndexToI64Failed": ("non-integer index in a call", "fn f() {\n    return [1][\"a\"]\n}\nf()\n", _traced),
+    "EvalStartIndexFailed": ("error in a range start index in a call", "fn f() {\n    return [1][1 + \"a\":]\n}\nf()\n", _traced),
+    "EvalEndIndexFailed": ("error in a range end index in a call", "fn f() {\n    return [1][:1 + \"a\"]\n}\nf()\n", _traced),
+    "EvalListRangeIndexFailed": ("range read out of bounds in a call", "fn f() {\n    return [1][0:5]\n}\nf()\n", _traced),
+    "EvalStringRangeIndexFailed": ("string range read out of bounds in a call", "fn f() {\n    return \"a\"[0:5]\n}\nf()\n", _traced),
+    "EvalRangeEndFailed": ("error in a range end in a call", "fn f() {\n    return 1 .. (1 + \"a\")\n}\nf()\n", _traced),
+    "EvalPropNameFailed": ("non-string computed property name in a call", "fn f() {\n    return {(1): 2}\n}\nf()\n", _traced),
+    "EvalPropFailed": ("error in the object of a property access in a call", "fn f() {\n    return (1 + \"a\").a\n}\nf()\n", _traced),
+    "InterpolateStringEvalExprFailed": ("error inside an interpolation slot in a call", "fn f() {\n    return $\"a${1 + []}\"\n}\nf()\n", _traced),
+    "ValidateArgsFailed": ("invalid parameter list of a nested function in a call", "fn f() {\n    fn g(1) {\n    }\n}\nf()\n", _traced),
+    "BindListItemFailed": ("error binding a nested list pattern in a call", "fn f() {\n    [[a]] := [1]\n}\nf()\n", _traced),
+    "BindObjectPairFailed": ("error binding a nested object pattern in a call", "fn f() {\n    {\"k\": [a]} := {\"k\": 1}\n}\nf()\n", _traced),
+    "AssertArgsFailed": ("wrong argument count for print in a call", "fn f() {\n    print(1, 2)\n}\nf()\n", _traced),
 }
 
 
